@@ -87,4 +87,9 @@ def main(argv=None):
 
 
 if __name__ == "__main__":
+    try:
+        import signal
+        signal.signal(signal.SIGPIPE, signal.SIG_DFL)  # `check.py ... | head` must not turn into a traceback
+    except Exception:  # noqa
+        pass
     sys.exit(main())
